@@ -27,7 +27,7 @@ RULE = (
 EXPLANATION = "exhaustive bounded enumeration; stubs parsed with ast and compared with the live functions"
 ASSUMPTIONS = ["ast and inspect.signature are trusted", "generated sources carry no annotations (C13 covers those)"]
 
-KINDS0 = ["function", "coroutine", "generator"]
+KINDS0 = ["function", "coroutine", "generator", "asyncgen"]
 KINDS1 = ["instance", "classmethod", "staticmethod", "cocoroutine"]  # cocoroutine = coroutine method
 
 
@@ -59,6 +59,12 @@ def specs(tier: str) -> List[Tuple[str, int, Tuple[G.Param, ...], bool]]:
             out.append(("function", 0, pl2, True))
             out.append(("instance", 1, pl2, True))
             out.append(("classmethod", 2, pl2, True))
+    for n in (3, 5, 7):
+        for d in (0, 1, n):
+            plp = tuple([("P", None)] * (n - d) + [("P", "1")] * d)
+            out.append(("function", 0, plp, True))
+            out.append(("instance", 1, plp, True))
+            out.append(("staticmethod", 2, plp, True))
     return out
 
 
@@ -82,9 +88,9 @@ def gen_module(funcs: List[Tuple[str, int, Tuple[G.Param, ...], bool]], base: in
         deco = {"classmethod": "@classmethod", "staticmethod": "@staticmethod", "property": "@property"}.get(kind)
         if deco:
             lines.append(f"{indent}{deco}")
-        is_async = kind in ("coroutine", "cocoroutine")
+        is_async = kind in ("coroutine", "cocoroutine", "asyncgen")
         lines.append(f"{indent}{'async ' if is_async else ''}def {fname}({params}):")
-        if kind == "generator":
+        if kind in ("generator", "asyncgen"):
             lines.append(f"{indent}    yield 1")
         else:
             lines.append(f"{indent}    return 1")
@@ -206,7 +212,7 @@ def traces_for(mod, metas, subset):
                 cls = getattr(cls, p)
             if names[0] in arg_types:
                 arg_types[names[0]] = cls if m["recv"] == "self" else type
-        if m["kind"] == "generator":
+        if m["kind"] in ("generator", "asyncgen"):
             out.append(CallTrace(func, arg_types, None, int))
         else:
             out.append(CallTrace(func, arg_types, int, None))
@@ -297,6 +303,18 @@ class C4:
         def same(self, a, b=1):
             return 1
 
+        class D3:
+            def same(self, a, b=1):
+                return 1
+
+            def other(self, a, b=1):
+                return 1
+
+            class E4:
+                @staticmethod
+                def same(a, b=1):
+                    return 1
+
 
 class C5:
     @property
@@ -319,12 +337,17 @@ def special_stage(res: Result, ctx: Ctx, srcdir: Path) -> None:
         {"idx": 3, "path": ("C4",), "name": "same", "kind": "staticmethod", "params": pl, "names": ["a", "b"], "recv": ""},
         {"idx": 4, "path": ("C4", "N2"), "name": "same", "kind": "instance", "params": pl, "names": ["a", "b"], "recv": "self"},
         {"idx": 5, "path": ("C5",), "name": "same", "kind": "property", "params": (), "names": [], "recv": "self"},
+        {"idx": 6, "path": ("C4", "N2", "D3"), "name": "same", "kind": "instance", "params": pl, "names": ["a", "b"], "recv": "self"},
+        {"idx": 7, "path": ("C4", "N2", "D3"), "name": "other", "kind": "instance", "params": pl, "names": ["a", "b"], "recv": "self"},
+        {"idx": 8, "path": ("C4", "N2", "D3", "E4"), "name": "same", "kind": "staticmethod", "params": pl, "names": ["a", "b"], "recv": ""},
     ]
     modname = f"c12same_{ctx.seed}"
     (srcdir / f"{modname}.py").write_text(SAME_SRC)
     importlib.invalidate_caches()
     mod = importlib.import_module(modname)
-    for order in itertools.permutations(range(6)):
+    orders = list(itertools.permutations(range(6)))
+    orders = [o + (6, 7, 8) for o in orders[::7]] + [(8, 7, 6) + o for o in orders[::11]] + [(6, 0, 7, 3, 8, 1, 2, 4, 5), (7, 8, 6, 5, 4, 3, 2, 1, 0)]
+    for order in orders:
         res.states += 1
         case = {"module_index": -1, "subset": list(order), "tier": ctx.tier}
         try:
